@@ -11,7 +11,6 @@ import (
 	"encoding/hex"
 	"math"
 	"strconv"
-	"strings"
 
 	"github.com/arloliu/go-secs/v2/hsms"
 	"github.com/arloliu/go-secs/v2/secs2"
@@ -20,16 +19,37 @@ import (
 const atCap = 300 // *At accessors are probed for indices -1, 0..min(Size,atCap)-1, Size
 const maxDepth = 6
 
+// tw is a goroutine-local append buffer. Its methods are marked go:norace: the buffer is
+// never shared, and instrumenting the hundreds of thousands of tiny appends of one
+// transcript would make the -race pass spend its time on the harness instead of the
+// library (the library calls themselves stay fully instrumented).
 type tw struct{ b []byte }
 
-func (w *tw) s(x string) *tw     { w.b = append(w.b, x...); return w }
-func (w *tw) sp() *tw            { w.b = append(w.b, ' '); return w }
-func (w *tw) nl()                { w.b = append(w.b, '\n') }
-func (w *tw) i(x int64) *tw      { w.b = strconv.AppendInt(w.b, x, 10); return w }
-func (w *tw) u(x uint64) *tw     { w.b = strconv.AppendUint(w.b, x, 10); return w }
-func (w *tw) q(x string) *tw     { w.b = strconv.AppendQuote(w.b, x); return w }
-func (w *tw) hex(x []byte) *tw   { w.b = hex.AppendEncode(w.b, x); return w }
+//go:norace
+func (w *tw) s(x string) *tw { w.b = append(w.b, x...); return w }
+
+//go:norace
+func (w *tw) sp() *tw { w.b = append(w.b, ' '); return w }
+
+//go:norace
+func (w *tw) nl() { w.b = append(w.b, '\n') }
+
+//go:norace
+func (w *tw) i(x int64) *tw { w.b = strconv.AppendInt(w.b, x, 10); return w }
+
+//go:norace
+func (w *tw) u(x uint64) *tw { w.b = strconv.AppendUint(w.b, x, 10); return w }
+
+//go:norace
+func (w *tw) q(x string) *tw { w.b = strconv.AppendQuote(w.b, x); return w }
+
+//go:norace
+func (w *tw) hex(x []byte) *tw { w.b = hex.AppendEncode(w.b, x); return w }
+
+//go:norace
 func (w *tw) fbits(x float64) *tw { w.b = strconv.AppendUint(w.b, math.Float64bits(x), 16); return w }
+
+//go:norace
 func (w *tw) bl(x bool) *tw {
 	if x {
 		w.b = append(w.b, 'T')
@@ -41,6 +61,8 @@ func (w *tw) bl(x bool) *tw {
 
 // bytesv renders a byte slice distinguishing nil from empty (an accessor switching
 // between the two after a mutation is an observable change).
+//
+//go:norace
 func (w *tw) bytesv(x []byte) *tw {
 	if x == nil {
 		return w.s("nil")
@@ -48,6 +70,7 @@ func (w *tw) bytesv(x []byte) *tw {
 	return w.s("[").i(int64(len(x))).s("]").hex(x)
 }
 
+//go:norace
 func (w *tw) err(e error) *tw {
 	if e == nil {
 		return w.s("ok")
@@ -56,18 +79,24 @@ func (w *tw) err(e error) *tw {
 }
 
 // errRL renders an error run-length compressed against the previous one on the same line.
+//
+//go:norace
 func (w *tw) errRL(e error, last *string) *tw {
-	cur := "ok"
+	cur := "\x00ok"
 	if e != nil {
-		cur = "err(" + e.Error() + ")"
+		cur = e.Error()
 	}
 	if cur == *last {
 		return w.s("=")
 	}
 	*last = cur
-	return w.s(cur)
+	if e == nil {
+		return w.s("ok")
+	}
+	return w.s("err(").s(cur).s(")")
 }
 
+//go:norace
 func (w *tw) indent(d int) *tw {
 	for k := 0; k < d; k++ {
 		w.b = append(w.b, '.', ' ')
@@ -92,11 +121,32 @@ func atIdx(n int) []int {
 	return r
 }
 
+// atIdxFor: every index (atIdx) for an *At accessor that serves this item (index 0 is
+// answered without error, or the item has no elements), otherwise the boundary indices
+// only (an accessor of another type answers every index with the same type error).
+func atIdxFor(all []int, n int, zeroErr error) []int {
+	if zeroErr == nil || n == 0 {
+		return all
+	}
+	return []int{-1, 0, n}
+}
+
+// tbuf is a reusable set of transcript buffers (one per sequential observer).
+type tbuf struct {
+	hdr, byt, itm, drv, out tw
+}
+
+// item writes the transcript of one item; the result is valid until tb is used again.
+func (tb *tbuf) item(it secs2.Item) []byte {
+	tb.out.b = tb.out.b[:0]
+	itemT(&tb.out, it, 0)
+	return tb.out.b
+}
+
 // ItemTranscript is the transcript of one item.
 func ItemTranscript(it secs2.Item) string {
-	w := &tw{b: make([]byte, 0, 1024)}
-	itemT(w, it, 0)
-	return string(w.b)
+	var tb tbuf
+	return string(tb.item(it))
 }
 
 func itemT(w *tw, it secs2.Item, d int) {
@@ -173,7 +223,8 @@ func itemT(w *tw, it secs2.Item, d int) {
 	{
 		last := ""
 		L("ItemAt")
-		for _, k := range idx {
+		_, e0 := it.ItemAt(0)
+		for _, k := range atIdxFor(idx, n, e0) {
 			c, err := it.ItemAt(k)
 			w.sp().errRL(err, &last)
 			if err == nil {
@@ -188,7 +239,8 @@ func itemT(w *tw, it secs2.Item, d int) {
 	{
 		last := ""
 		L("ByteAt")
-		for _, k := range idx {
+		_, e0 := it.ByteAt(0)
+		for _, k := range atIdxFor(idx, n, e0) {
 			x, err := it.ByteAt(k)
 			w.sp().errRL(err, &last).s("/").u(uint64(x))
 		}
@@ -197,7 +249,8 @@ func itemT(w *tw, it secs2.Item, d int) {
 	{
 		last := ""
 		L("BoolAt")
-		for _, k := range idx {
+		_, e0 := it.BoolAt(0)
+		for _, k := range atIdxFor(idx, n, e0) {
 			x, err := it.BoolAt(k)
 			w.sp().errRL(err, &last).s("/").bl(x)
 		}
@@ -206,7 +259,8 @@ func itemT(w *tw, it secs2.Item, d int) {
 	{
 		last := ""
 		L("IntAt")
-		for _, k := range idx {
+		_, e0 := it.IntAt(0)
+		for _, k := range atIdxFor(idx, n, e0) {
 			x, err := it.IntAt(k)
 			w.sp().errRL(err, &last).s("/").i(x)
 		}
@@ -215,7 +269,8 @@ func itemT(w *tw, it secs2.Item, d int) {
 	{
 		last := ""
 		L("UintAt")
-		for _, k := range idx {
+		_, e0 := it.UintAt(0)
+		for _, k := range atIdxFor(idx, n, e0) {
 			x, err := it.UintAt(k)
 			w.sp().errRL(err, &last).s("/").u(x)
 		}
@@ -224,7 +279,8 @@ func itemT(w *tw, it secs2.Item, d int) {
 	{
 		last := ""
 		L("FloatAt")
-		for _, k := range idx {
+		_, e0 := it.FloatAt(0)
+		for _, k := range atIdxFor(idx, n, e0) {
 			x, err := it.FloatAt(k)
 			w.sp().errRL(err, &last).s("/").fbits(x)
 		}
@@ -304,7 +360,8 @@ func itemT(w *tw, it secs2.Item, d int) {
 		L("Get()").err(err).s("/self=").bl(err == nil && g == it).nl()
 		last := ""
 		L("Get(i)")
-		for _, k := range idx {
+		_, e0 := it.Get(0)
+		for _, k := range atIdxFor(idx, n, e0) {
 			g, err := it.Get(k)
 			w.sp().errRL(err, &last)
 			if err == nil {
@@ -316,7 +373,7 @@ func itemT(w *tw, it secs2.Item, d int) {
 		w.nl()
 		last = ""
 		L("Get(i,0)")
-		for _, k := range idx {
+		for _, k := range atIdxFor(idx, n, e0) {
 			g, err := it.Get(k, 0)
 			w.sp().errRL(err, &last)
 			if err == nil && g != nil {
@@ -335,14 +392,20 @@ func itemT(w *tw, it secs2.Item, d int) {
 
 // SECS2MsgTranscript: the transport-agnostic secs2.Message.
 func SECS2MsgTranscript(m secs2.SECS2Message) string {
-	w := &tw{}
+	var tb tbuf
+	return string(tb.s2(m))
+}
+
+func (tb *tbuf) s2(m secs2.SECS2Message) []byte {
+	tb.out.b = tb.out.b[:0]
+	w := &tb.out
 	w.s("StreamCode: ").u(uint64(m.StreamCode())).nl()
 	w.s("FunctionCode: ").u(uint64(m.FunctionCode())).nl()
 	w.s("WaitBit: ").bl(m.WaitBit()).nl()
 	it := m.Item()
 	w.s("Item again same: ").bl(m.Item() == it).nl()
 	itemT(w, it, 1)
-	return string(w.b)
+	return w.b
 }
 
 // MsgTranscript is the transcript of an HSMS message. order permutes the order in
@@ -350,12 +413,17 @@ func SECS2MsgTranscript(m secs2.SECS2Message) string {
 // make a different accessor the first one to touch lazily computed state); the text is
 // always assembled in the canonical order, so it does not depend on order.
 func MsgTranscript(m hsms.Message, order int) string {
+	var tb tbuf
+	return string(tb.msg(m, order))
+}
+
+func (tb *tbuf) msg(m hsms.Message, order int) []byte {
+	tb.hdr.b, tb.byt.b, tb.itm.b, tb.drv.b, tb.out.b = tb.hdr.b[:0], tb.byt.b[:0], tb.itm.b[:0], tb.drv.b[:0], tb.out.b[:0]
 	if m == nil {
-		return "msg=<nil>\n"
+		return tb.out.s("msg=<nil>\n").b
 	}
-	var hdr, byt, itm, drv tw
 	doHdr := func() {
-		w := &hdr
+		w := &tb.hdr
 		w.s("Type: ").u(uint64(m.Type())).nl()
 		w.s("SessionID: ").u(uint64(m.SessionID())).nl()
 		sb := m.SystemBytes()
@@ -387,7 +455,7 @@ func MsgTranscript(m hsms.Message, order int) string {
 		}
 	}
 	doByt := func() {
-		w := &byt
+		w := &tb.byt
 		w.s("ToBytes: ").bytesv(m.ToBytes()).nl()
 		if x, ok := m.(*hsms.DataMessage); ok {
 			w.s("BodyLen: ").i(int64(x.BodyLen())).nl()
@@ -403,7 +471,7 @@ func MsgTranscript(m hsms.Message, order int) string {
 		if !ok {
 			return
 		}
-		w := &itm
+		w := &tb.itm
 		var de error
 		if errFirst {
 			de = x.DecodeErr()
@@ -426,7 +494,7 @@ func MsgTranscript(m hsms.Message, order int) string {
 		if !ok {
 			return
 		}
-		w := &drv
+		w := &tb.drv
 		dmsg, err := x.Derive().Build()
 		w.s("Derive.Build: ").err(err)
 		if dmsg != nil {
@@ -456,12 +524,12 @@ func MsgTranscript(m hsms.Message, order int) string {
 		doHdr()
 		doByt()
 	}
-	var sb strings.Builder
-	sb.Write(hdr.b)
-	sb.Write(byt.b)
-	sb.Write(itm.b)
-	sb.Write(drv.b)
-	return sb.String()
+	o := &tb.out
+	o.b = append(o.b, tb.hdr.b...)
+	o.b = append(o.b, tb.byt.b...)
+	o.b = append(o.b, tb.itm.b...)
+	o.b = append(o.b, tb.drv.b...)
+	return o.b
 }
 
 func sameItem(a, b secs2.Item) (same bool) {
@@ -480,23 +548,4 @@ func sameErr(a, b error) (same bool) {
 		}
 	}()
 	return a == b
-}
-
-// firstDiff describes the first differing line of two transcripts.
-func firstDiff(a, b string) string {
-	la, lb := strings.Split(a, "\n"), strings.Split(b, "\n")
-	for k := 0; k < len(la) && k < len(lb); k++ {
-		if la[k] != lb[k] {
-			return "line " + strconv.Itoa(k) + ": before=" + clipS(la[k], 220) + " | after=" + clipS(lb[k], 220)
-		}
-	}
-	return "length differs: " + strconv.Itoa(len(la)) + " vs " + strconv.Itoa(len(lb)) + " lines"
-}
-
-func clipS(s string, n int) string {
-	// keep the region around the first difference readable
-	if len(s) > n {
-		return s[:n] + "..."
-	}
-	return s
 }
